@@ -70,6 +70,7 @@ func VerifHarness_VVJNAL() {
 	if !valid {
 		verifReach("invalid-operands")
 		verifAssert(err != nil, "C09: invalid (offset,width) is rejected")
+		verifAssert(err != nil && err != ErrExecutionReverted && err != errStopToken, "C12: malformed operands halt the frame exceptionally")
 		if qerr == nil && changes != nil {
 			verifAssert(len(changes.Changes()) == 0, "C09: rejected operands record nothing")
 		}
@@ -83,6 +84,7 @@ func VerifHarness_VVJNAL() {
 	}
 	verifReach("valid")
 	verifAssert(err == nil, "C09: valid operands on a registered key are accepted")
+	verifAssert(err == nil, "C12: well-formed operands do not disturb execution")
 	verifAssert(qerr == nil && changes != nil, "C09: change visible through slot lookup")
 	list := changes.Changes()[callIdx]
 	verifAssert(len(list) == 1, "C10: one entry under the current call index")
@@ -155,6 +157,7 @@ func VerifHarness_VRJNAL() {
 	if !valid {
 		verifReach("invalid-encoding")
 		verifAssert(err != nil, "C09: invalid string encoding is rejected")
+		verifAssert(err != nil && err != ErrExecutionReverted && err != errStopToken, "C12: malformed operands halt the frame exceptionally")
 		if qerr == nil && changes != nil {
 			verifAssert(len(changes.Changes()) == 0, "C09: rejected encoding records nothing")
 		}
